@@ -339,6 +339,7 @@ struct RefsWorld : World {
 					reference_array<metatype> *ra2 = 0; item_array<metatype> *ia = 0;
 					if (items) { Sut su; ia = new item_array<metatype>(); } else { Sut su; ra2 = new reference_array<metatype>(); }
 					long held[3] = {0, 0, 0};
+					std::vector<std::pair<int, std::string> > inames;      // item_array: object and name of every entry, in order (object -1: emptied)
 					const int steps = (op.c & 4) ? 16 : 10;      // the longer episodes push a reference_array beyond its first allocation chunk
 					for (int k = 0; k < steps; ++k) {
 						x = x * 1664525u + 1013904223u;
@@ -355,6 +356,7 @@ struct RefsWorld : World {
 								unsigned nk = (x >> 8) & 7; const char *name = nk < 2 ? 0 : nk < 5 ? nm : nk < 7 ? "a-name-of-forty-characters-for-this-item" : longname.c_str();
 								uint64_t fn = (nk == 6 || (x & 0x4000)) ? 1 + ((x >> 16) & 1) : 0; bool fired;
 								{ Sut su(fn); ok = ia->append(obj[o], name) != 0; fired = g.fired; }
+								if (ok) inames.push_back(std::make_pair(o, std::string(name ? name : "")));
 								if (nk == 7) { st.hit("probe:item_name_refused"); if (ok) fail("accepted-invalid", "item_array accepted a name of 70000 characters"); }
 								if (fired) st.hit("fault:allocfail");
 								if (!ok && !fired && nk != 7) fail("refused-valid", "item_array append refused without allocation fault");
@@ -368,8 +370,26 @@ struct RefsWorld : World {
 						} else if (act == 4) {
 							long c; { Sut su; c = items ? ia->count() : ra2->count(); }
 							if (c != held[0] + held[1] + held[2]) fail("count-mismatch", "%s count() is %ld, %ld references are held", items ? "item_array" : "reference_array", c, held[0] + held[1] + held[2]);
+						} else if (items && act == 3 && !inames.empty()) {
+							// an entry is emptied the way item_group::clear(ref) does it
+							size_t k2 = (x >> 9) % inames.size();
+							if (inames[k2].first >= 0) { { Sut su; ia->begin()[k2].set_instance(0); } --held[inames[k2].first]; inames[k2].first = -1; st.hit("probe:item_array_entry_emptied"); }
 						} else {
-							if (items) { Sut su; ia->compact(); } else { Sut su; ra2->compact(); }
+							if (items) {
+								// compaction moves the kept entries forward: each keeps its own name, also when an allocation fails on the way
+								uint64_t fn2 = (x & 0x8000) ? 1 : 0; bool fired2; { Sut su(fn2); ia->compact(); fired2 = g.fired; }
+								if (fired2) st.hit("fault:allocfail");
+								std::vector<std::pair<int, std::string> > kept; for (auto &e : inames) if (e.first >= 0) kept.push_back(e);
+								long n = ia->length(); size_t ki = 0;
+								for (long q = 0; q < n; ++q) { item<metatype> &it = ia->begin()[q]; if (!it.instance()) continue;
+									if (ki >= kept.size()) fail("count-mismatch", "item_array holds more entries after compact than were kept");
+									const char *nm; { Sut su; nm = it.name(); }
+									if (idx(it.instance()) != kept[ki].first) fail("wrong-entry", "item_array entry %ld refers to another object after compact", q);
+									if (std::string(nm ? nm : "") != kept[ki].second) fail("wrong-name", "after compact%s the entry of object %d is named '%.20s' (%zu characters), it was added as '%.20s' (%zu characters)", fired2 ? " with an allocation failure" : "", kept[ki].first, nm ? nm : "", nm ? strlen(nm) : (size_t) 0, kept[ki].second.c_str(), kept[ki].second.size());
+									++ki; }
+								if (ki != kept.size()) fail("count-mismatch", "item_array lost %zu of %zu kept entries in compact", kept.size() - ki, kept.size());
+								if (n == (long) kept.size()) inames = kept;
+							} else { Sut su; ra2->compact(); }
 						}
 						for (int i = 0; i < 3; ++i) if (before[i] >= 0 && alive(i) && obj[i]->refs != before[i] + held[i])
 							fail("count-mismatch", "object %d counts %ld references, %ld expected while a C++ %s holds %ld", i, obj[i]->refs, before[i] + held[i], items ? "item_array" : "reference_array", held[i]);
